@@ -16,6 +16,7 @@ def state_of(s, probe):
 
 
 def evaluate(case, res):
+    from core.util import no_color
     s = session.Session(filter_text=case.get('initial_filter'))
     w = scripts.Walker(s, res, case.get('initial_filter'))
     pre = {}
@@ -98,6 +99,19 @@ def evaluate(case, res):
         pool = w.pool()
         allm = [m for m in pool if matches(m)]
         res.evals += len(pool)
+        meta = it[3] if len(it) > 3 and isinstance(it[3], dict) else None
+        if meta and meta.get('ast') is not None and mt:
+            # the matcher was rendered from a syntax tree: what it selects by the documented meaning (where that is settled)
+            sel = {id(m) for m in allm}
+            for m in pool:
+                e = rm.ev(meta['ast'], m)
+                if e is True and id(m) not in sel:
+                    res.bad('list-matcher-meaning:misses', '%r does not select %s, which it does by the documented meaning' % (mt, no_color(str(m))))
+                    break
+                if e is False and id(m) in sel:
+                    res.bad('list-matcher-meaning:selects', '%r selects %s, which it does not by the documented meaning' % (mt, no_color(str(m))))
+                    break
+            res.count('listings-checked-against-documented-meaning')
         w.changes['listings'] += 1
         if not out or not out[0].startswith('Messages that match '):
             res.bad('list-header-missing', '%r printed %r' % (seg.text, out[:2]))
@@ -163,7 +177,7 @@ class Listings(Stage):
         initial = None
         if d.chance(0.3):
             initial = scripts.gen_matcher_text(d, rm.Gen(d, rm.vocab(specs), 1))
-        items = scripts.gen_script(d, specs, 'new', list_heavy=True)
+        items = scripts.gen_script(d, specs, 'new', list_heavy=True, depth=2)
         # the same text given to `filter` (extending a filter) and then to `list`: the listing must mean just that text
         if d.chance(0.4):
             V = rm.vocab(specs)
